@@ -40,6 +40,11 @@ var allowPrefixes = []string{
 	"github.com/ethereum/go-ethereum/common.CopyBytes",
 	"github.com/ethereum/go-ethereum/common.TrimLeftZeroes",
 	"github.com/ethereum/go-ethereum/common.TrimRightZeroes",
+	"github.com/ethereum/go-ethereum/common.FromHex",
+	"github.com/ethereum/go-ethereum/common.Hex2Bytes",
+	"github.com/ethereum/go-ethereum/common.has0xPrefix",
+	"github.com/ethereum/go-ethereum/common.isHexCharacter",
+	"github.com/ethereum/go-ethereum/common.isHex",
 	"github.com/tellor-io/",
 	"github.com/cosmos/cosmos-sdk/types.TokensToConsensusPower",
 	"github.com/cosmos/cosmos-sdk/types.TokensFromConsensusPower",
